@@ -1516,12 +1516,12 @@ func (e *Env) lineStateApplyDecorations() {
 								e.Run.Violation("R-SPACE", key, pos, fmt.Sprintf("%s; decorations %s: the last one goes to sink %q, the reference says %q (a comment goes to the node's Comment field only on the first line of an End decoration list of a node that has one, else to the file's comment list; exactly one sink)", envName, trace(child), gotSink, wantSink))
 								return
 							}
-							if cls == clsNL && nx.unkStart > 0 {
-								e.Run.Undecided("R-SPACE", key, pos, fmt.Sprintf("%s; decorations %s: the line start recorded for the \"\\n\" is not a sum over the cursor (int(<position>) - r.base ± constants)", envName, trace(child)))
+							if (cls == clsNL || cls == clsLine) && nx.unkStart > 0 {
+								e.Run.Undecided("R-SPACE", key, pos, fmt.Sprintf("%s; decorations %s: the line start recorded for the line break is not a sum over the cursor (int(<position>) - r.base ± constants)", envName, trace(child)))
 								return
 							}
-							if cls == clsNL && nx.atEnd > 0 {
-								e.Run.Violation("R-SPACE", "applyDecorations: a line-break decoration never starts the new line at the position where the restored content ends", pos, fmt.Sprintf("%s; decorations %s: the line break of the last one starts the new line at the very position where the content restored before it ends (the cursor has not moved since): End() of that node lies on the next line, and go/printer, which lays out lists by lineFor(x.End()), indents a multi-line return list twice and drops the trailing comma of a parameter list before a comment", envName, trace(child)))
+							if (cls == clsNL || cls == clsLine) && nx.atEnd > 0 {
+								e.Run.Violation("R-SPACE", "applyDecorations: a line-break decoration never starts the new line at the position where the restored content ends", pos, fmt.Sprintf("%s; decorations %s: the line break of the last one starts the new line at the very position where the content restored before it — a node, or the // comment itself — ends (the cursor has not moved since): End() of that content lies on the next line. go/printer, which lays out lists by lineFor(x.End()), indents a multi-line return list twice and drops the trailing comma of a parameter list before a comment; ast.SortImports, which compares the line of a comment's end with the lines of the specs, moves a trailing comment to another import", envName, trace(child)))
 								return
 							}
 							wantAdv := 0
